@@ -82,8 +82,9 @@ def run(tier, pid="C06", want_hit=False):
         # "same query with growing k, overwrite of a shared result document, same query again" are frequent
         fams += [(2, 2, 10, 3, 1), (1, 2, 8, 3, 1), (2, 3, 10, 2, 1)]
     for i, (capq, maxk, depth, ni_, nsc) in enumerate(fams):
-        # for the cache verdict use few query points so that the same (scope, query) recurs often
-        r = sc.generate(n * (2 if i >= 3 else 1), depth, capq, maxk, seed_off=i + (50 if want_hit else 0), np_=(2 if want_hit else 6), ni_=ni_, nsc=nsc)
+        # for the cache verdict use few query points so that the same (scope, query) recurs often; C06 does the same in one
+        # of its families (its verdict covers the answers served from the cache as well)
+        r = sc.generate(n * (2 if i >= 3 else 1), depth, capq, maxk, seed_off=i + (50 if want_hit else 0), np_=(2 if want_hit else 3 if i == 1 else 6), ni_=ni_, nsc=nsc)
         ck.add_tlc("TieredSearch simulate capq=%d maxk=%d num=%d depth=%d" % (capq, maxk, n, depth), r)
         stats, events = judge(ck, r.json_lines, capq, "g%d" % i, want_hit)
         for k in ("searches", "cache_hits", "ops"):
